@@ -34,15 +34,24 @@ const ZXST_HEADER_SIZE: usize = 8; // The zx-state header
 const ZXST_BLOCK_HEADER_SIZE: usize = 8; // The header for each block
 
 // Process Creator (CRTR) block
-fn process_crtr_block<H: Host>(_: &mut Emulator<H>, block_data: &[u8]) {
+fn process_crtr_block<H: Host>(_: &mut Emulator<H>, block_data: &[u8]) -> Result<()> {
+    if block_data.len() < 37 {
+        return Err(SnapshotLoadError::InvalidSZXFile.into());
+    }
     let crtr_name_bytes = &block_data[0..33];
-    let _ = from_utf8(crtr_name_bytes).unwrap();
+    let _ = from_utf8(crtr_name_bytes).map_err(|_| SnapshotLoadError::InvalidSZXFile)?;
     let _ = u16::from_le_bytes([block_data[33], block_data[34]]);
     let _ = u16::from_le_bytes([block_data[35], block_data[36]]);
+    Ok(())
 }
 
 // Process ZXSTZ80REGS (Z80R) block
-fn process_z80r_block<H: Host>(emulator: &mut Emulator<H>, block_data: &[u8]) {
+fn process_z80r_block<H: Host>(emulator: &mut Emulator<H>, block_data: &[u8]) -> Result<()> {
+    // Fixed-size block; only interrupt modes 0, 1 and 2 exist
+    if block_data.len() < 37 || block_data[28] > 2 {
+        return Err(SnapshotLoadError::InvalidSZXFile.into());
+    }
+
     // AF
     emulator
         .cpu
@@ -165,10 +174,21 @@ fn process_z80r_block<H: Host>(emulator: &mut Emulator<H>, block_data: &[u8]) {
         .cpu
         .regs
         .set_mem_ptr(u16::from_le_bytes([block_data[35], block_data[36]]));
+
+    Ok(())
 }
 
 // Process ZXSTSPECREGS (SPCR) block
-fn process_spcr_block<H: Host>(emulator: &mut Emulator<H>, machine_id: u32, block_data: &[u8]) {
+fn process_spcr_block<H: Host>(
+    emulator: &mut Emulator<H>,
+    machine_id: u32,
+    block_data: &[u8],
+) -> Result<()> {
+    // chBorder is a 3-bit color
+    if block_data.len() < 4 || block_data[0] > 7 {
+        return Err(SnapshotLoadError::InvalidSZXFile.into());
+    }
+
     // ch7ffd
     if machine_id < ZXST_MID_128K {
         emulator.controller.restore_7ffd(0); // Always 0 for 16k and 48k
@@ -194,11 +214,21 @@ fn process_spcr_block<H: Host>(emulator: &mut Emulator<H>, machine_id: u32, bloc
         emulator.controller.frame_clocks,
         ZXColor::from_bits(block_data[0]),
     );
+
+    Ok(())
 }
 
 // Process ZXSTAYBLOCK (AY00)
 #[cfg(all(feature = "sound", feature = "ay"))]
-fn process_ay_block<H: Host>(emulator: &mut Emulator<H>, machine_id: u32, block_data: &[u8]) {
+fn process_ay_block<H: Host>(
+    emulator: &mut Emulator<H>,
+    machine_id: u32,
+    block_data: &[u8],
+) -> Result<()> {
+    if block_data.is_empty() {
+        return Err(SnapshotLoadError::InvalidSZXFile.into());
+    }
+
     // chFlags
     let flags = block_data[0] as u32;
     if machine_id < ZXST_MID_128K {
@@ -213,6 +243,11 @@ fn process_ay_block<H: Host>(emulator: &mut Emulator<H>, machine_id: u32, block_
     }
 
     if emulator.settings.ay_enabled {
+        // chCurrentRegister + chAyRegs[16]
+        if block_data.len() < 18 {
+            return Err(SnapshotLoadError::InvalidSZXFile.into());
+        }
+
         // chCurrentRegister
         let ay_reg = block_data[1];
         emulator.controller.mixer.ay.select_reg(ay_reg);
@@ -220,10 +255,16 @@ fn process_ay_block<H: Host>(emulator: &mut Emulator<H>, machine_id: u32, block_
         // chAyRegs
         emulator.controller.mixer.ay.set_regs(&block_data[2..]);
     }
+
+    Ok(())
 }
 
 // Process ZXSTKEYB (KEYB)
-fn process_keyb_block<H: Host>(emulator: &mut Emulator<H>, block_data: &[u8]) {
+fn process_keyb_block<H: Host>(emulator: &mut Emulator<H>, block_data: &[u8]) -> Result<()> {
+    if block_data.len() < 5 {
+        return Err(SnapshotLoadError::InvalidSZXFile.into());
+    }
+
     // dwFlags
     // ignored for now as only issue 2 is emulated
     let _flags = u32::from_le_bytes([block_data[0], block_data[1], block_data[2], block_data[3]]);
@@ -235,10 +276,16 @@ fn process_keyb_block<H: Host>(emulator: &mut Emulator<H>, block_data: &[u8]) {
     } else {
         emulator.controller.kempston = None;
     }
+
+    Ok(())
 }
 
 // Process ZXSTMOUSE (AMXM)
-fn process_amxm_block<H: Host>(emulator: &mut Emulator<H>, block_data: &[u8]) {
+fn process_amxm_block<H: Host>(emulator: &mut Emulator<H>, block_data: &[u8]) -> Result<()> {
+    if block_data.is_empty() {
+        return Err(SnapshotLoadError::InvalidSZXFile.into());
+    }
+
     // chType
     // Only Kempston mouse is supported
     let mouse = block_data[0] as u32;
@@ -251,6 +298,8 @@ fn process_amxm_block<H: Host>(emulator: &mut Emulator<H>, block_data: &[u8]) {
     } else {
         emulator.controller.mouse = None;
     }
+
+    Ok(())
 }
 
 // Process ZXSTRAMPAGE (RAMP)
@@ -259,6 +308,10 @@ fn process_ramp_block<H: Host>(
     machine_id: u32,
     block_data: &[u8],
 ) -> Result<()> {
+    if block_data.len() < 3 {
+        return Err(SnapshotLoadError::InvalidSZXFile.into());
+    }
+
     // wFlags
     let flags = u16::from_le_bytes([block_data[0], block_data[1]]) as u32;
 
@@ -274,6 +327,10 @@ fn process_ramp_block<H: Host>(
         };
     }
 
+    // Page should exist on the emulated machine
+    if page_num as usize >= emulator.controller.memory.ram_pages_count() {
+        return Err(SnapshotLoadError::InvalidSZXFile.into());
+    }
     let page_data = emulator.controller.memory.ram_page_data_mut(page_num);
 
     if flags & ZXSTRF_COMPRESSED != 0 {
@@ -284,17 +341,21 @@ fn process_ramp_block<H: Host>(
         {
             let compressed_data: Vec<u8> = block_data[3..].to_vec();
             match decompress_zlib_stream(&compressed_data) {
-                Ok(data) => {
+                Ok(data) if data.len() >= page_data.len() => {
                     return {
                         page_data.copy_from_slice(&data[..page_data.len()]);
                         Ok(())
                     }
                 }
+                Ok(_) => return Err(SnapshotLoadError::InvalidSZXFile.into()),
                 Err(_) => return Err(SnapshotLoadError::InvalidSZXFile.into()),
             }
         }
     } else {
         let uncompressed_data: Vec<u8> = block_data[3..].to_vec();
+        if uncompressed_data.len() < page_data.len() {
+            return Err(SnapshotLoadError::InvalidSZXFile.into());
+        }
         page_data.copy_from_slice(&uncompressed_data[..page_data.len()]);
     }
 
@@ -387,23 +448,23 @@ where
 
         match id_str.as_str() {
             "CRTR" => {
-                process_crtr_block(emulator, &block_data);
+                process_crtr_block(emulator, &block_data)?;
             }
             "Z80R" => {
-                process_z80r_block(emulator, &block_data);
+                process_z80r_block(emulator, &block_data)?;
             }
             "SPCR" => {
-                process_spcr_block(emulator, machine_id, &block_data);
+                process_spcr_block(emulator, machine_id, &block_data)?;
             }
             #[cfg(all(feature = "sound", feature = "ay"))]
             "AY\0\0" => {
-                process_ay_block(emulator, machine_id, &block_data);
+                process_ay_block(emulator, machine_id, &block_data)?;
             }
             "KEYB" => {
-                process_keyb_block(emulator, &block_data);
+                process_keyb_block(emulator, &block_data)?;
             }
             "AMXM" => {
-                process_amxm_block(emulator, &block_data);
+                process_amxm_block(emulator, &block_data)?;
             }
             "RAMP" => {
                 process_ramp_block(emulator, machine_id, &block_data)?;
